@@ -15,6 +15,7 @@
 -/
 import Proofs.Canon
 import Proofs.Reject
+import Proofs.EnvInv
 
 
 open Parse RejectProofs
@@ -70,6 +71,15 @@ theorem c11_definition_registers (fuel : Nat) (kv : List (Val × Val)) (ns ty : 
       (fun ns' xs st fs st' hx => fields_names_mono _ (fun x st d s st' hx => names_mono fuel x ns' st d ign s st' hx) xs st fs st' hx)
       kv ns st st' dflt ign s h
     exact ⟨ns', full, h1, h2, h3 full (by simp)⟩
+
+/-- **the named-schema table holds named-type definitions, each under its own full name** — whatever
+    raw schema is parsed, at any depth; this discharges the table hypotheses of C08 (`EnvWF.named`) and
+    C15 (`JsonBack.EnvNamed`) for every table `parse_schema` builds -/
+theorem c11_table_holds_definitions (fuel : Nat) (raw : Val) (env env' : Env) (ign : Bool) (s : Schema)
+    (h : parseTop fuel raw env ign = .ok (s, env'))
+    (hi : ∀ n d, env.get? n = some d → d.isNamedDef = true ∧ d.defName? = some n) :
+    ∀ n d, env'.get? n = some d → d.isNamedDef = true ∧ d.defName? = some n :=
+  EnvInv.parseTop_named fuel raw env env' ign s h hi
 
 /-- … and the set only grows while the rest of the schema is parsed: the second definition of a name,
     wherever it comes later in the tree, meets `c11_reject_redefined`. -/
